@@ -163,24 +163,31 @@ Definition class_inv_b (c : hclass) (v : bytes) : bool :=
   | _ => no_crlf_b v
   end.
 
-Definition is_multiline_site (func : bytes) : bool :=
-  match templates_of multiline_templates func with [] => false | _ => true end.
-
-(** the strings of the case are inside what their sources guarantee (otherwise the case is
-    outside the precondition) *)
+(** the strings of the case are inside what their sources guarantee (otherwise the case is outside
+    the precondition).  DNS text is not a precondition: making it harmless is the code's job. *)
 Definition case_pre (es : list case_elem) : bool :=
-  forallb (fun e => match fst e with None => true | Some c => class_inv_b c (class_value c (snd e)) end) es.
+  forallb (fun e => match fst e with
+                    | None | Some HDnsTxt => true
+                    | Some c => class_inv_b c (class_value c (snd e))
+                    end) es.
 
-(** judge what the implementation wrote at a call site *)
+(** judge what the implementation wrote at a call site: a valid reply (three digits, ' ' on the last
+    line, '-' before, <= 512, no stray CR/LF); and, when the case names the template exactly, with
+    the code of the template and carrying the text of the array completely and in order *)
 Definition spec_ok_site (func : bytes) (es : list case_elem) (ls : list bytes) : bool :=
-  let args := case_args es in
-  if is_multiline_site func then
-    literal_reply_ok (concat ls) && bytes_eqb (concat ls) (concat args)
-  else
-    match args with
-    | s0 :: parts => spec_ok_C10 s0 parts ls
-    | [] => false
-    end.
+  match resolve_tpl func es with
+  | Some (true, t) =>
+      literal_reply_ok (concat ls)
+      && (negb (shape_exact t es) || bytes_eqb (concat ls) (concat (shape_args t es)))
+  | Some (false, t) =>
+      match ls, shape_args t es with
+      | l :: _, s0 :: parts =>
+          forallb is_digit (firstn 3 l) && lines_ok_b (firstn 3 l) SP ls
+          && (negb (shape_exact t es) || spec_ok_C10 s0 parts ls)
+      | _, _ => false
+      end
+  | None => false
+  end.
 
 Fixpoint is_suffix (m full : bytes) : bool :=
   bytes_eqb m full || match full with [] => false | _ :: r => is_suffix m r end.
